@@ -370,7 +370,9 @@ def sameDurations (subs : List PT) (σ : Scope) : Bool :=
 mutual
 /-- durations, entry times and repetition counts are non-negative, the entry times of a table do not decrease, counts
 and loop ranges are exact integers (the code accepts values within 1e-6 of an integer, instantiates negative
-durations / counts as the empty pulse and does not look at the entries of a table of duration 0) -/
+durations / counts as the empty pulse and does not look at the entries of a table of duration 0); the duration
+expressions of the parts of an atomic multi channel template and of the two operands of an atomic arithmetic template
+agree (the code only compares the waveforms that exist: a part of duration 0 silently vanishes with its channels) -/
 def regular : PT → Scope → Bool
   | .const _ dur _ _, σ => evalsTo σ dur (fun d => decide (0 ≤ d))
   | .table _ entries _ _, σ => entries.all (fun x => match instEntries σ x.2 with
@@ -397,7 +399,10 @@ def regular : PT → Scope → Bool
           | _, _ => false)
        | none => true)
   | .arith _ body _ _ _, σ => regular body σ
-  | .arithAtomic _ lhs _ rhs _, σ => regular lhs σ && regular rhs σ
+  | .arithAtomic _ lhs _ rhs _, σ => regular lhs σ && regular rhs σ &&
+      (match templateDuration lhs σ, templateDuration rhs σ with
+       | .ok x, .ok y => x == y
+       | _, _ => false)
   | .timeReversal _ body, σ => regular body σ
 def regularAll : List PT → Scope → Bool
   | [], _ => true
